@@ -22,6 +22,9 @@ CONSTANTS Caps,        \* capacities explored
 VARIABLES N, sumT, minT, ptr, cursor, size, maxp, seen, out, nops, act
 vars == <<N, sumT, minT, ptr, cursor, size, maxp, seen, out, nops, act>>
 core == <<N, sumT, minT, ptr, cursor, size, maxp, seen>>
+\* the view used for model checking keeps the operation counter: with several TLC workers a state may be found first on a
+\* longer path, and a view that hides the bounded counter would then cut its successors (incomplete, run-dependent exploration)
+coreN == <<N, sumT, minT, ptr, cursor, size, maxp, seen, nops>>
 
 Inf == 1000000000
 MinI(a, b) == IF a <= b THEN a ELSE b
